@@ -3,7 +3,7 @@ import gens_total
 from props.common import TRUSTED_BASE, ASSUMPTIONS
 
 ID = "C10"
-LEAN_MODULES = ["LexVerif.Props.C10"]
+LEAN_MODULES = ["LexVerif.Props.C10", "LexVerif.Props.C10Debug"]
 GEN = []
 PROFILES = {"quick": ["release", "dbg"], "thorough": ["release", "dbg"]}
 TRUSTED = TRUSTED_BASE + [
@@ -22,13 +22,27 @@ RULE = ("G-total generator (gens_total.py), per valid format of harness/formats.
         "length, error index > input length. non-trivial = a byte was consumed (ok, or an error index > 0); "
         "distinct = distinct op lines")
 
-TECHNIQUE = ("Lean 4 proof on the model (no PANIC / FAULT, count <= length, error index <= length, in release and debug mode) + "
-             "guard-page correspondence over arbitrary bytes in release and debug-assertion builds")
-LEVEL_TEXT = ("Theorems of LexVerif.Props.C10 state totality of the model entry points (see coverage.theorems). The model is tied to "
-              "the Rust by the correspondence run: every op runs in-process against the real crate with the input placed so that "
-              "the slice ends at a guard page, in release and in debug-assertion builds.")
-LEVEL_NOTE = ("Trusted: Lean kernel; rustc; that the models mirror the Rust control flow (correspondence only). Actual over-reads "
-              "are only observable through the guard page (one byte past the end faults; reads before the start are not caught).")
+TECHNIQUE = ("Lean 4 proof on the model: iterator invariant (index <= length, digit counts <= index) carried through every phase "
+             "of parse_number for every format / feature set / byte list; release: no FAULT, no PANIC, no fuel exhaustion, count and "
+             "error index <= length; debug: no PANIC under explicit format classes + decided panic witnesses for the excluded ones; "
+             "+ guard-page correspondence over arbitrary bytes in release and debug-assertion builds")
+LEVEL_TEXT = ("Props/C10.lean (complete, release mode): parseNumber_total / parseFloatSyntax_total / parseFloatModel_total - for EVERY "
+              "feature set, every format with formatError = none, options, partial flag and EVERY byte list the float syntax model "
+              "(parse.rs + skip/noskip iterators) returns ok with count <= length or Error(i) with i <= length, never the model's "
+              "FAULT (get_unchecked(..b_digits), step_unchecked, peek_u64, loop fuel) and never PANIC (unreachable!(), "
+              "fraction_digits.unwrap(): excluded by a counting argument); phases_preserve_invariant; foldExponent_lt and "
+              "exponent_within_i64 (explicit_exponent < 0x10000000*radix+radix, |exponent| < 2^63 for inputs < 2^59 bytes); "
+              "parseInt_total for the 12 integer types (from C04). Props/C10Debug.lean (debug-assertion build, partial): the unrestricted "
+              "statement is FALSE (not_parse_total_debug); no panic is proved for three classes - no separator byte "
+              "(ValidContiguous), integer+fraction iterators contiguous (ValidIntFracContiguous), integer/fraction components noskip "
+              "or I+L+T+C (ValidIltc) - with decided witnesses for the excluded classes: a component with flags I+T+C without L "
+              "(sep_itc, RUST/SWIFT literals: '1._1234567890123456789'), and a separator equal up to ASCII case to the exponent "
+              "character / base prefix / base suffix; the 12 remaining separator predicates are kept as "
+              "def parseNumber_no_panic_debug_full.")
+LEVEL_NOTE = ("Trusted: Lean kernel; rustc; that the models mirror the Rust control flow (correspondence only: C12 stream 871k ops + this "
+              "property's arbitrary-byte streams, release and dbg profiles). Actual over-reads are only observable through the guard "
+              "page (one byte past the end faults; reads before the start are not caught). The integer parser with the `format` feature "
+              "(prefix/suffix/separators) has no Lean model yet: covered by correspondence only.")
 
 
 def feature_sets(tier):
